@@ -290,6 +290,31 @@ func run(c Case) ev.Verdict {
 			}
 		}()
 
+		// the caller's list is a part of a longer one (the options of another device follow it in
+		// the same array): constructing from the part leaves the rest alone
+		hit := false
+		sentinel := func(interface{}) error { hit = true; return util.ErrIgnoredOption }
+		backing := make([]util.Option, len(user)+1)
+		copy(backing, user)
+		backing[len(user)] = sentinel
+		user = backing[:len(user)]
+
+		defer func() {
+			if err != nil && strings.HasPrefix(err.Error(), "PANIC") {
+				return
+			}
+
+			if hit {
+				err = fmt.Errorf("PANIC: the constructor applied an option beyond the end of the list it was given")
+
+				return
+			}
+
+			if _ = backing[len(user)](nil); !hit {
+				err = fmt.Errorf("PANIC: the constructor overwrote the caller's array beyond the end of the list it was given")
+			}
+		}()
+
 		switch c.Ctor {
 		case "generic":
 			gd, err = generic.NewDriver("h", user...)
@@ -332,7 +357,7 @@ func run(c Case) ev.Verdict {
 	v := ev.Verdict{OK: true, Classes: []string{"ctor=" + c.Ctor, "transport=" + cx.transport}}
 
 	if err != nil && strings.HasPrefix(err.Error(), "PANIC") {
-		return ev.Fail("constructor panicked: %v (ctor %s, platform options %+v, user options %+v)", err, c.Ctor, c.Platform, c.Opts)
+		return ev.Fail("constructor: %v (ctor %s, platform options %+v, user options %+v)", err, c.Ctor, c.Platform, c.Opts)
 	}
 
 	if len(wantErrs) == 0 {
